@@ -41,6 +41,63 @@ def sw_edges(body, origin, rx):
     return out
 
 
+_DERIVED_DISCR_EQ = '(intrinsics::discriminant_value(arg:self) Eq intrinsics::discriminant_value(arg:other))'
+
+
+def _derived_enum_eq(prog, call):
+    """For a call of `==` / `!=` (PartialEq::eq / ne) between two values of one local field-less enum whose `eq` is the DERIVED one — its whole body is
+    `discriminant_value(self) == discriminant_value(other)` — the list of the enum's variant names; None otherwise (a hand-written eq / ne may answer anything, an enum
+    with fields is not decided by its discriminant)."""
+    if call is None or call.orig not in ('core::cmp::PartialEq::eq', 'core::cmp::PartialEq::ne') or len(call.ga) < 2 or call.ga[0] != call.ga[1]:
+        return None
+    adt = prog.adts.get(call.ga[0])
+    if not adt or adt.get('kind') != 'enum' or any(v.get('fields') for v in adt['variants']):
+        return None
+    eq_id = '<%s as core::cmp::PartialEq>::eq' % call.ga[0]
+    if call.orig.endswith('::ne'):
+        # `!=` is the provided method `!self.eq(other)` unless the impl overrides it: an `ne` with a body of its own in the analysed crates is not accepted
+        if call.callee != 'core::cmp::PartialEq::ne' and prog.resolve_local(call.callee) is not None:
+            return None
+        if any(b.id.startswith('<%s as core::cmp::PartialEq' % call.ga[0]) and b.id.endswith('>::ne') for b in prog.bodies.values()):
+            return None
+    elif call.callee != eq_id:
+        return None
+    eqb = prog.resolve_local(eq_id)
+    if eqb is None or eqb.argc != 2 or flow.render(flow.Origin(eqb).of_local(0)) != _DERIVED_DISCR_EQ:
+        return None
+    return [v['name'] for v in adt['variants']]
+
+
+def mode_edges(prog, body, origin):
+    """(strict, best): the switch edges (switch block, target, predicate) on which recovery_mode is known to be Strict / BestEffort.  The mode is asked either by a
+    switch on its discriminant (`match` / `if let`) or through the derived `==` / `!=` against a constant variant (`if recovery_mode == RecoveryMode::Strict`): the bool
+    of `<RecoveryMode as PartialEq>::eq` — checked to be the derived discriminant comparison — is true exactly on that variant, and false on THE other one when the
+    enum has exactly two variants (with a third variant the false edge names no mode and nothing is concluded from it)."""
+    found = {'Strict': sw_edges(body, origin, r'^variant\(arg:recovery_mode\) = Strict$'),
+             'BestEffort': sw_edges(body, origin, r'^variant\(arg:recovery_mode\) = BestEffort$')}
+    for i, blk in enumerate(body.blocks):
+        t = blk['t']
+        if t['k'] != 'switch' or t.get('onty') != 'bool' or i not in body.live_blocks():
+            continue
+        e = origin.of_operand(t['on'])
+        while (e[0] == 'un' and e[1] == 'Not') or (e[0] == 'call' and e[1].endswith('anyhow::__private::not') and e[2]):
+            e = e[2] if e[0] == 'un' else e[2][0]
+        if e[0] != 'call' or len(e) < 4 or len(e[2]) != 2:
+            continue
+        names = _derived_enum_eq(prog, e[3])
+        if not names:
+            continue
+        for tg, p in flow.switch_edge_predicates(body, i, origin):
+            m = re.match(r'^(!?)eq\[arg:recovery_mode, config::RecoveryMode::(\w+)\{\}\]$', p)
+            if not m or m.group(2) not in names:
+                continue
+            rest = [n for n in names if n != m.group(2)]
+            known = m.group(2) if not m.group(1) else (rest[0] if len(rest) == 1 else None)
+            if known in found:
+                found[known].append((i, tg, 'variant(arg:recovery_mode) = %s' % known))
+    return sorted(found['Strict']), sorted(found['BestEffort'])
+
+
 def field_read_blocks(body, field_rx):
     """Blocks in which a place with a field matching field_rx is read (rvalue of a statement or operand of the terminator)."""
     rx = re.compile(field_rx)
@@ -83,8 +140,8 @@ def run(ctx, prog):
     # ------------------------------------------------------------------ R1
     ctx.rule('C13.R1', 'every switch on recovery_mode in recovery refuses on its Strict edge (only Err returns reachable) or runs '
                        'the strict reader with its error propagated; tolerant reader calls appear only on BestEffort edges')
-    strict = sw_edges(rec, ov, r'^variant\(arg:recovery_mode\) = Strict$')
-    best = sw_edges(rec, ov, r'^variant\(arg:recovery_mode\) = BestEffort$')
+    # asked by a switch on the discriminant or through the derived `==` / `!=` (mode_edges)
+    strict, best = mode_edges(prog, rec, ov)
     ctx.floor('C13.R1', 'switches on recovery_mode', len(strict), 3, 'snapshot-load failure, missing segment, reader choice')
     best_targets = {}
     for i, tg, p in best:
@@ -189,15 +246,20 @@ def run(ctx, prog):
                        'checksum-equal and version-equal edges, and both return the validated data')
     ras = ctx.body('C13.R2', 'WalReader::read_all_strict')
     oras = flow.Origin(ras, stop_at_vars=True)
-    g = sw_edges(ras, oras, r'^cmp\[\+ arg:self→WalReader\.corrupted_entries >= 1\]$')
-    gpass = sw_edges(ras, oras, r'^!cmp\[\+ arg:self→WalReader\.corrupted_entries >= 1\]$')
+    # the guard in either polarity: `n > 0` / `n >= 1` / `n != 0` refusing, or the inverted early return `if n == 0 { return Ok(..) }` (for the unsigned counter
+    # `!(n >= 1)`, `n == 0` and `n <= 0` are the same set); a threshold other than zero matches neither list
+    CE13 = r'arg:self→WalReader\.corrupted_entries'
+    G_FAIL = r'^(?:cmp\[\+ %s >= 1\]|!cmp\[\+ %s == 0\]|!cmp\[\+ %s <= 0\])$' % (CE13, CE13, CE13)
+    G_PASS = r'^(?:!cmp\[\+ %s >= 1\]|cmp\[\+ %s == 0\]|cmp\[\+ %s <= 0\])$' % (CE13, CE13, CE13)
+    g = sw_edges(ras, oras, G_FAIL)
+    gpass = sw_edges(ras, oras, G_PASS)
     fresh = True
     if not g or not gpass:
         # the counter copied into a named local before it is tested: the same guard on the fully expanded origin — provided the copy is taken AFTER the frames were
         # read (every read of the counter lies strictly behind the read_all call); a copy taken before the call would be the stale count
         oras_full = flow.Origin(ras)
-        g = sw_edges(ras, oras_full, r'^cmp\[\+ arg:self→WalReader\.corrupted_entries >= 1\]$')
-        gpass = sw_edges(ras, oras_full, r'^!cmp\[\+ arg:self→WalReader\.corrupted_entries >= 1\]$')
+        g = sw_edges(ras, oras_full, G_FAIL)
+        gpass = sw_edges(ras, oras_full, G_PASS)
         ra_ = ras.calls_to('WalReader::read_all')
         fresh = len(ra_) == 1 and all(rb != ra_[0].bb and ras.dominates(ra_[0].bb, rb) for rb in field_read_blocks(ras, r'WalReader\.corrupted_entries$'))
     if not g or not gpass:
@@ -240,9 +302,16 @@ def run(ctx, prog):
     GUARDS = [('magic', r'cmp\[\+ var:magic_val == %s\]$' % wmagic, r'cmp\[\+ num::from_le_bytes\([^()]*\) == %s\]$' % wmagic),
               ('checksum', r'cmp\[\+ (var:computed_checksum - var:stored_checksum|var:stored_checksum - var:computed_checksum) == 0\]$', CRC_EQ_FULL),
               ('version', r'cmp\[\+ var:snapshot_version == %s\]$' % wver, r'cmp\[\+ bincode::deserialize_from\(.*\)@Continue→Continue\.0 == %s\]$' % wver)]
+    # a comparison with a constant may also be written as a `match` on the constant pattern (`match snapshot_version { SNAPSHOT_VERSION => {} other => bail!(..) }`):
+    # a switch on the decoded word itself whose ONLY listed value is the writer's constant — that edge is the equal edge, `otherwise` the mismatch edge (a second
+    # accepted value would make the otherwise edge `∉ {c,d}`: not recognised, anchor missing)
+    INT_SW = {'magic': (r'num::from_le_bytes\([^()]*\)', wmagic), 'version': (r'bincode::deserialize_from\(.*\)@Continue→Continue\.0', wver)}
     for nm, rx, rx_full in GUARDS:
         fail = sw_edges(sl, osl, '^!' + rx) or sw_edges(sl, osl_full, '^!' + rx_full)
         pas = sw_edges(sl, osl, '^' + rx) or sw_edges(sl, osl_full, '^' + rx_full)
+        if (not fail or not pas) and nm in INT_SW and INT_SW[nm][1] is not None:
+            fail = sw_edges(sl, osl_full, r'^%s ∉ \{%d\}$' % INT_SW[nm])
+            pas = sw_edges(sl, osl_full, r'^%s = %d$' % INT_SW[nm])
         if not fail or not pas:
             ctx.inst('C13.R2', sl.short, 'Ok only past the %s guard' % nm, False, 'anchor missing: %s comparison not found in a recognised form' % nm)
             continue
